@@ -183,6 +183,35 @@ func c16Check(h []byte, via string) (kind, msg string) {
 			return "", "reader position after the first profile is not its end: n/a"
 		}
 		p, err, pan = readProfile(br)
+	case "second-in-custom-reader": // two profiles back to back in a caller-defined reader, a fresh ProfileReader for each
+		other := append([]byte{}, h...)
+		for i := range other {
+			if i < 36 || i >= 40 {
+				other[i] ^= 0xFF
+			}
+		}
+		first := c16Profile(other)
+		cr := shortByteReader{src.New(append(append([]byte{}, first...), prof...))}
+		if _, e1, p1 := readProfile(cr); e1 != nil || p1 != nil {
+			return "", "first profile not readable: n/a"
+		}
+		p, err, pan = readProfile(cr)
+	case "data-asked-thrice": // ICCProfile() is an accessor: the third call gives what the first gave
+		md := &meta.Data{}
+		md.SetICCProfileData(prof)
+		for k := 0; k < 3 && pan == nil; k++ {
+			func() {
+				defer func() {
+					if x := recover(); x != nil {
+						pan = x
+					}
+				}()
+				p, err = md.ICCProfile()
+			}()
+			if k < 2 && e.SignatureOK && (err != nil || p == nil) {
+				break
+			}
+		}
 	case "reader-reused": // one ProfileReader used for two profiles back to back; the FIRST result is inspected afterwards
 		other := append([]byte{}, h...)
 		for i := range other {
@@ -441,7 +470,7 @@ func runC16(r *core.Run) {
 		}
 		r.AddEvals(1)
 		if i%17 == 0 {
-			for _, via := range []string{"png", "bufio@4000", "short-reads", "bytes.Reader@offset", "strings.Reader@offset", "bytes.Buffer", "section", "second-in-reader", "after-rejected", "data-reused", "reader-reused"} {
+			for _, via := range []string{"png", "bufio@4000", "short-reads", "bytes.Reader@offset", "strings.Reader@offset", "bytes.Buffer", "section", "second-in-reader", "after-rejected", "data-reused", "reader-reused", "second-in-custom-reader", "data-asked-thrice"} {
 				if kind, msg := c16Check(h, via); kind != "" {
 					r.Violate("header", kind+"/"+via, msg, c16Case{Header: hex.EncodeToString(h), Via: via})
 				}
@@ -490,6 +519,15 @@ func runC16(r *core.Run) {
 		}
 	}
 	r.AddEvals(65536)
+	if r.Variant == "" {
+		// the same workload in processes with another time zone and locale (the creation time is a UTC
+		// field of the header; nothing about the host may enter it)
+		vs := []string{"env:TZ=Asia/Tokyo@4", "env:TZ=America/Los_Angeles+env:LANG=de_DE.UTF-8@2", "env:TZ=Pacific/Chatham+env:LC_ALL=ja_JP.UTF-8@8"}
+		for _, v := range vs {
+			r.RunVariantChild(v, 10*time.Minute, false)
+		}
+		r.Obs("fresh_process_environments", vs)
+	}
 	r.Obs("structured_headers", len(headers))
 	r.Obs("random_headers", nrand)
 	r.Sample(map[string]any{"header_hex": hex.EncodeToString(headers[1500]), "expected": fmt.Sprintf("%+v", c16Oracle(headers[1500]))})
@@ -514,5 +552,5 @@ func replayC16(stage string, raw json.RawMessage) (bool, string, error) {
 }
 
 func init() {
-	core.Register(&core.Property{ID: "C16", Level: "exploration", Run: runC16, Replay: replayC16})
+	core.Register(&core.Property{ID: "C16", Level: "exploration", Run: runC16, Replay: replayC16, Child: variantChild("C16", "exploration", runC16)})
 }
